@@ -2,7 +2,7 @@
 from corr import corr_terms, corr_ghost, corr_means, corr_assemble
 import solversearch as SS
 
-MODULES = ["PyFV.Props.C02", "PyFV.Props.C02Conv", "PyFV.Props.GenEq", "PyFV.Props.GenEqUpw", "PyFV.Props.GenEqBC", "PyFV.Props.GenEqAsm"]
+MODULES = ["PyFV.Props.C02", "PyFV.Props.C02Conv", "PyFV.Props.GenEq", "PyFV.Props.GenEqUpw", "PyFV.Props.GenEqBC", "PyFV.Props.GenEqAsm", "PyFV.Props.C02ConvBC"]
 TRANSLATORS = {"T-num": "python3 harness/translate/tnum.py lean/PyFV/Gen/Stencils.lean", "T-upw": "python3 harness/translate/tupw.py lean/PyFV/Gen/StencilsUpw.lean", "T-bc": "python3 harness/translate/tbc.py lean/PyFV/Gen/BCGen.lean", "T-asm": "python3 harness/translate/tasm.py lean/PyFV/Gen/AsmGen.lean"}
 ASSUMPTIONS = ["PARTIAL: consistency (exactness on polynomials with explicit remainders, incl. all metric factors) and the stability/error-bound lemma are "
                "proved; the Taylor-remainder step to 'error = O(h^2) for every smooth solution' is not mechanised — the manufactured-solution refinement "
